@@ -273,6 +273,25 @@ func aliased(text string) (string, error) {
 	return buf.String(), nil
 }
 
+// allAliased: every key of the answer to the aliased document is one of its aliases.
+func allAliased(v interface{}) bool {
+	switch x := v.(type) {
+	case map[string]interface{}:
+		for k, e := range x {
+			if !strings.HasPrefix(k, "x_") || !allAliased(e) {
+				return false
+			}
+		}
+	case []interface{}:
+		for _, e := range x {
+			if !allAliased(e) {
+				return false
+			}
+		}
+	}
+	return true
+}
+
 func unalias(v interface{}) interface{} {
 	switch x := v.(type) {
 	case map[string]interface{}:
@@ -425,7 +444,7 @@ func main() {
 			} else {
 				ar, _ := post(g, map[string]interface{}{"query": at, "operationName": "IntrospectionQuery"})
 				ad, _ := ar["data"].(map[string]interface{})
-				if ad == nil || !reflect.DeepEqual(unalias(ad), unalias(data)) {
+				if ad == nil || !allAliased(ad) || !reflect.DeepEqual(unalias(ad), unalias(data)) {
 					ev["aliasAgrees"] = false
 				}
 			}
